@@ -4,6 +4,7 @@
 (* universe that the harness replays on the real classes (printed as JSON when Export = TRUE).    *)
 EXTENDS Cache, Json
 CONSTANTS Kind, Max, LSize, AW, DW, Keys, Durs, Depth, Export, WithReopen,
+          WithReput,  \* also re-put the value a key already has
           WithNone    \* also put Python's None (NoneV): a resident key whose value is None is still resident
 VARIABLES c, hist, last
 vars == <<c, hist, last>>
@@ -14,7 +15,10 @@ Do(o, newlast) == /\ Len(hist) < Depth
                   /\ \E out \in Outcomes(c, o) : c' = out[1] /\ hist' = Append(hist, o)
                   /\ last' = newlast
 
-Put(k, d) == \E v \in {Len(hist) + 1} \cup (IF WithNone THEN {NoneV} ELSE {}) :
+(* a put writes a fresh value, None (WithNone), or AGAIN the value the key was last put with (WithReput: an "unchanged" *)
+(* entry is still a put: it refreshes recency / the file's age like any other)                                       *)
+Put(k, d) == \E v \in {Len(hist) + 1} \cup (IF WithNone THEN {NoneV} ELSE {})
+                     \cup (IF WithReput /\ k \in DOMAIN last THEN {last[k]} ELSE {}) :
                  Do([op |-> "put", k |-> k, v |-> v, d |-> d], Upd(last, k, v))
 Get(k)    == Do([op |-> "get", k |-> k], last)
 Clear     == Do([op |-> "clear"], Empty)
